@@ -537,6 +537,8 @@ class Gef:
                     else:
                         entries = self._render_ret(obj[0], obj[1])
                     g0 = set(self.guards(pt[0]))
+                    if rk == 'store' and getattr(obj, 'phi_pred', None) is not None:
+                        g0 |= set(self.guards(obj.phi_pred))        # a write through a reference chosen by a test: the chosen side's test
                     for pb in preds:
                         g0 |= set(self.guards(pb))
                 finally:
